@@ -235,7 +235,9 @@ class Sim:
             except Exception:  # pylint: disable=broad-exception-caught
                 pass
             rid = orig_rerunid(job)
-            info = (rid, nxt, max(sim.stored_runids) if sim.stored_runids else 0, job.get('runid', None))
+            # what the triggering event carried is what the last organize() naming the node was given
+            # (observed at that boundary, not read back from the node: the node is what is being checked)
+            info = (rid, nxt, max(sim.stored_runids) if sim.stored_runids else 0, sim.last_org.get(job.tag))
             # the allocation belongs to the units of this job released by the current dispatch
             for r in sim.releases:
                 if r.tag == job.tag and r.state == 'released' and r.alloc is None:
@@ -582,6 +584,7 @@ class Sim:
         fsm.time_machine = _TM()
         aegen.prepare(newspec, world.aeroot)
         self.in_build = True
+        self.last_org = {}  # the reload creates new nodes: nothing carries a run id until organize says so
         try:
             fsm.wait_for_nothing()  # what cmd_reset / a NOW submission do
             guard = 0
